@@ -354,7 +354,15 @@ pub fn run_prop(cli: &Cli) -> i32 {
     );
     report.assume("a 2 GiB zeroed allocation request is lazily mapped on this machine, so forwarding it does not disturb the run; it is still recorded and judged");
     let cases = generate(cli);
-    let results = par_map(cases, cli.threads(), |_, c| {
+    // a panic is caught and judged below; an *abort* (allocation failure, stack overflow, double
+    // panic) would take the whole monitor down: every worker notes the case it is about to run, so
+    // that ./check can attribute the abort to its input
+    let progress_dir = std::path::PathBuf::from(std::env::var("VERIF_ROOT").unwrap_or_else(|_| "/verif".into())).join(".run").join("C04-progress");
+    let _ = std::fs::remove_dir_all(&progress_dir);
+    let _ = std::fs::create_dir_all(&progress_dir);
+    let results = par_map(cases, cli.threads(), |i, c| {
+        let slot = progress_dir.join(format!("{:?}", std::thread::current().id()).replace(['(', ')'], "_"));
+        let _ = std::fs::write(&slot, format!("case {i}: state={} class={} mutation={} max_frame={}\n", c.state, c.class, c.detail, c.max_frame));
         let r = run(&c.sc);
         let bound = 8 * c.max_frame as usize + 256 * 1024;
         let mut findings: Vec<(String, String, Value)> = vec![];
@@ -415,5 +423,6 @@ pub fn run_prop(cli: &Cli) -> i32 {
     report.set("state_x_mutation_class_matrix", json!(matrix));
     report.set("listen_results", json!(kinds));
     report.set("largest_single_allocation_observed", json!(max_alloc));
+    let _ = std::fs::remove_dir_all(&progress_dir);
     report.finish()
 }
